@@ -56,6 +56,10 @@ Reasons(r) ==
             \* C04: the reported bindings are consistent with an alignment in which a variable always stands for the same code
             \cup (IF o.ok /\ Legal(PT, T, s, 1, 1) /\ ~LegalB(PT, T, s, 1, 1, [single |-> o.single, multi |-> o.multi]) THEN {<<"same-variable-different-code", s>>} ELSE {})
             \cup (IF o.len >= 0 /\ ~EndOK(T, 1, T[1].s + o.len) THEN {<<"match-len", s>>} ELSE {})
+            \* C04 inside one pattern: a candidate tried and rejected after an ellipsis leaves no trace.  Reported when the
+            \* real verdict is the one of the matcher that keeps such bindings and not the one of the matcher that drops them
+            \cup (IF ~o.panic /\ ~r.nopat /\ ~o.ok /\ Match(PT, T, s, 1).ok /\ ~MatchKeeping(PT, T, s, 1).ok
+                  THEN {<<"rejected-candidate-left-bindings", s>>} ELSE {})
           : i \in 1..5 }
     \* the kept text of a cut pattern is copied from the code: when the parsed pattern has the structure of the code but
     \* a kept leaf reads differently, the pattern text was altered on its way to the matcher
